@@ -199,7 +199,7 @@ def classify(f, v, stage, exn, ctx=None):
                 h, w = rd
                 if not X.accepts(h, w, ctx):
                     return "anyof:deserialized-by-an-option-that-rejects-the-result"
-                empty = v in (("list", []), ("deque", []), ("dict", []), ("tuple", [])) or (v[0] == "set" and not v[2])
+                empty = doc == [] or doc == {}        # an empty collection, or a structure none of whose fields is set
                 if w is None and empty and "none" in X.kinds_in(h):
                     return "anyof:NoneField-option-first-reads-empty-collection-as-None"
         except Exception:  # noqa
@@ -220,6 +220,14 @@ def classify(f, v, stage, exn, ctx=None):
                 return "tuple-homogeneous:tail-not-deserialized"
     if t == "num" and v[0] == "dec":
         return "number:holding-Decimal"
+    if t == "enumcls" and stage == "deser-raises" and exn == "KeyError" and issubclass(G.ENUMS[f["cls"]], str):
+        # root cause C08-str-mixin-enum-deser: Enum.__set__ looks every str up with _enum_class[value], and a member of a
+        # str mix-in enum IS a str -- the member Enum.deserialize returned is looked up by itself
+        return "enumcls:str-mixin-member-looked-up-by-itself"
+    if t == "enumcls" and v[0] == "enum" and v[1] != f["cls"]:
+        # a member of ANOTHER (mix-in) enum class that compares equal to a declared member (LevelIV.OFF == 0 == RatioFN.ZERO):
+        # accepted by Enum._validate through ==, stored as given -- same family as F27
+        return "enumcls:holding-equal-member-of-another-enum-class"
     if t == "enumlit" and v[0] == "dec":
         return "enumlit:holding-Decimal"
     return "shape=" + G.shape(f) + "/value=" + v[0]
@@ -227,7 +235,7 @@ def classify(f, v, stage, exn, ctx=None):
 
 def localise(f, v, o, ctx, depth=0):
     """Smallest aligned (sub-declaration, sub-value) that fails the round trip on its own at the same stage."""
-    if depth > 4:
+    if depth > 14:
         return f, v, o
     subs = SG.subcases(f, v)[:30]
     if f["t"] == "ref" and v[0] == "struct":
